@@ -271,7 +271,9 @@ func (hm *Manager) GetHooksInOrder(bindingType htypes.BindingType) ([]string, er
 			}
 		}
 
-		sort.Slice(hooks, func(i, j int) bool {
+		// Hooks are registered in alphabetical order, a stable sort keeps
+		// this order for hooks with equal onStartup values.
+		sort.SliceStable(hooks, func(i, j int) bool {
 			return hooks[i].Config.OnStartup.Order < hooks[j].Config.OnStartup.Order
 		})
 	}
